@@ -85,7 +85,38 @@ def sweep(pid, chk=None, jobs=None):
       print(f'{"OK  " if good else "BAD "} {pid} {name:40s} {kind:5s} -> {status} {info[:160]}')
   if chk is not None and bad:
     raise model.AnalysisError(f'{pid}: the rules fail their own sensitivity sweep: {bad[:4]}')
+  if chk is not None:
+    equivalents(pid, chk)
   return results
+
+
+def run_equivalent(pid, seed):
+  from sa import equiv
+  root = _scratch_root()
+  try:
+    chosen, logs = equiv.make_variant(model.REPO, seed, root)
+    env = dict(os.environ, VERIF_NO_EVIDENCE='1')
+    p = subprocess.run([sys.executable, '-B', '-m', 'sa.cli', pid, '--repo', root, '--tier', 'quick'], cwd=VERIF, env=env, capture_output=True, text=True, timeout=900)
+    out = p.stdout + p.stderr
+    first = next((l for l in out.splitlines() if ': [' in l or l.startswith('ANALYSIS')), '')
+    return seed, sum(len(v) for v in logs.values()), p.returncode, first[:300]
+  finally:
+    shutil.rmtree(root, ignore_errors=True)
+
+
+def equivalents(pid, chk, n=8):
+  """The rules must give the same verdict on behaviour-preserving rewrites of the whole package (operand order, local names,
+  temporaries, statement order, keyword / positional arguments): `n` random rewrites per run, seeded by VERIF_SEED."""
+  base = int(chk.seed) * 1000003 + sum(ord(c) for c in pid)
+  seeds = [base + i for i in range(n)]
+  with concurrent.futures.ThreadPoolExecutor(max_workers=min(8, os.cpu_count() or 4)) as ex:
+    res = list(ex.map(lambda s: run_equivalent(pid, s), seeds))
+  bad = [(s, rc, msg) for s, nrew, rc, msg in res if rc != 0]
+  for s, nrew, rc, msg in res:
+    if rc == 0:
+      chk.ok(f'{pid}.equivalent-rewrites', f'rewrite seed {s}', f'{nrew} behaviour-preserving rewrites over the package: same verdict')
+  if bad:
+    raise model.AnalysisError(f'{pid}: the rules change their verdict on behaviour-preserving rewrites (tools/equiv_fuzz.py --emit DIR --raw-seed {bad[0][0]}): {bad[:2]}')
 
 
 if __name__ == '__main__':
